@@ -16,6 +16,7 @@ def mark(tag):
 def main():
     from harness import backends as B
     plan = json.load(open(sys.argv[1]))
+    mark('pid-%d' % os.getpid())          # (the restarted process of the harness gets the same process id)
     bks = {b.name: b for b in B.all_backends()}
     for case in plan:
         d = case['dir']
